@@ -22,3 +22,5 @@ def check(run):
     # inspect and on arbitrary default objects: bounded stand-ins
     reflection_bounded(run)
     defaults_bounded(run)
+    from checks.main import nodecross_bounded
+    nodecross_bounded(run)
